@@ -473,6 +473,39 @@ Proof.
   exists r. reflexivity.
 Qed.
 
+(* A client's channel closes (Server.on_channel_close): the continuation state of every OTHER client is left
+   untouched, wherever it is kept (served or parked); the closing client's own state is dropped; the served
+   state (channel, current_response) is reset exactly when the closing channel is the one being served. *)
+Theorem disconnect_other_untouched : forall recs s a b,
+  a <> b -> view (fst (s_step recs s (Disconnect b))) a = view s a.
+Proof.
+  intros recs s a b Hn. rewrite step_view. simpl op_chan.
+  destruct (b =? a) eqn:E; [apply Z.eqb_eq in E; congruence|reflexivity].
+Qed.
+
+Theorem disconnect_own_dropped : forall recs s b, view (fst (s_step recs s (Disconnect b))) b = RNone.
+Proof. intros. rewrite step_view. simpl op_chan. rewrite Z.eqb_refl. reflexivity. Qed.
+
+Theorem disconnect_served_state : forall recs s b,
+  fst (s_step recs s (Disconnect b)) =
+  if is_chan s b then mkS None RNone (p_remove b (s_pending s))
+  else mkS (s_chan s) (s_cur s) (p_remove b (s_pending s)).
+Proof. intros. simpl. destruct (is_chan s b); reflexivity. Qed.
+
+(* hence: a transaction of client a that is under way is completed exactly as if b had never existed *)
+Corollary disconnect_between_pieces : forall recs s a b mtu q,
+  a <> b ->
+  snd (s_step recs (fst (s_step recs s (Disconnect b))) (Request a mtu q)) =
+  [(a, snd (handle recs mtu (view s a) q))].
+Proof.
+  intros recs s a b mtu q Hn.
+  pose proof (step_out recs (fst (s_step recs s (Disconnect b))) (Request a mtu q) a) as Ho.
+  simpl op_chan in Ho. rewrite Z.eqb_refl in Ho. rewrite (disconnect_other_untouched recs s a b Hn) in Ho.
+  destruct (response_to_requester recs (fst (s_step recs s (Disconnect b))) a mtu q) as [r Hr].
+  rewrite Hr in *. unfold to_chan in Ho. simpl in Ho. rewrite Z.eqb_refl in Ho. simpl in Ho.
+  cbn [solo_step] in Ho. destruct (handle recs mtu (view s a) q) as [c' r']. simpl in *. congruence.
+Qed.
+
 (* Consequence: a client's whole transaction is exact whatever the other clients do in between.
    (Stated for get_attributes driven request by request through the shared server: the
    responses to d's requests are those of the solo server, to which get_attributes_exact
